@@ -338,43 +338,6 @@ def rfModel (sc : RfScript) (s0 : St) : St :=
 
 /-! ### lemmas -/
 
-theorem sig_enter_spec (sc : Bool) (s : TS) :
-    TrE.sigEnter (sgPrims sc) s =
-      if s.signo then ({ s with saved := some s.handler, handler := true }, .next ()) else (s, .ret false) := by
-  unfold TrE.sigEnter
-  cases h : s.signo <;> simp [h, bind_apply, get_apply, pure_apply, ret_apply]
-
-theorem sig_exit_spec (sc : Bool) (s : TS) (b : Bool) (hs : s.saved = some b) :
-    TrE.sigExit (sgPrims sc) s =
-      (if s.signo then { s with handler := b } else s, .ret false) := by
-  unfold TrE.sigExit
-  cases h : s.signo <;> simp [h, hs, bind_apply, get_apply, ret_apply]
-
-theorem sig_exit_nosig (sc : Bool) (s : TS) (hs : s.signo = false) :
-    TrE.sigExit (sgPrims sc) s = (s, .ret false) := by
-  unfold TrE.sigExit
-  simp [hs, bind_apply, get_apply, ret_apply]
-
-theorem sig_handler_spec (sc : Bool) (s : TS) :
-    TrE.sigHandler (sgPrims sc) s =
-      ({ s with st := (step s.st .sigterm).1, sched := s.sched ++ [.cancelled 4], chained := s.chained || sc }, .next ()) := by
-  unfold TrE.sigHandler
-  cases sc <;> simp [bind_apply, get_apply, pure_apply, step]
-
-/-- the "stop everything" loop over supporting tasks: each one that is not done is cancelled; the model state is untouched -/
-theorem cancel_sups (env : Nat → St → St) : ∀ (l : List Nat) (s : TS),
-    TrE.run_for1 (runPrims env) (l.map Tk.sup) s =
-      ({ s with cancelled := s.cancelled ++ (l.filter fun i => !(s.st.supDone.any (·.1 == i))).map Tk.sup }, .next ()) := by
-  intro l
-  induction l with
-  | nil => intro s; simp [TrE.run_for1, pure_apply]
-  | cons i l ih =>
-    intro s
-    simp only [List.map_cons]
-    unfold TrE.run_for1
-    cases hd : s.st.supDone.any (·.1 == i) <;>
-      simp [hd, bind_apply, get_apply, taskDone, ih, List.filter_cons]
-
 theorem enumFrom_sups : ∀ (m k : Nat),
     TrE.enumFrom (k : Int) ((List.range' k m).map Tk.sup) = (List.range' k m).map fun (i : Nat) => ((i : Int), Tk.sup i) := by
   intro m
@@ -390,31 +353,6 @@ def orElseSup (re : Option PyExc) (x : Option Nat) : Option PyExc :=
   match re with
   | some e => some e
   | none => x.map fun id => .err (.exc id)
-
-/-- the collection loop over supporting tasks #k … #k+m-1: the first failure (in the order of the arguments)
-    is kept unless an error was collected before -/
-theorem collect_sups (env : Nat → St → St) (n : Nat) : ∀ (m k : Nat) (re : Option PyExc) (s : TS), k + m ≤ n →
-    TrE.run_for2 (runPrims env) (coros n) ((List.range' k m).map fun (i : Nat) => ((i : Int), Tk.sup i)) re s =
-      (s, .next (orElseSup re ((List.range' k m).findSome? (supFailure s.st.supDone)))) := by
-  intro m
-  induction m with
-  | zero => intro k re s _; cases re <;> simp [TrE.run_for2, pure_apply, orElseSup]
-  | succ m ih =>
-    intro k re s hk
-    simp only [List.range'_succ, List.map_cons]
-    unfold TrE.run_for2
-    have hlen : (coros n).length = n := by simp [coros]
-    have h1 : -(n : Int) ≤ (k : Int) ∧ (k : Int) < (n : Int) := by omega
-    have h2 : ¬ ((k : Int) < 0) := by omega
-    cases hf : supFailure s.st.supDone k with
-    | some id =>
-      cases re <;>
-        simp [hf, bind_apply, pure_apply, raise_apply, tryExcept_apply, hlen, h1, h2, ih (k + 1) _ s (by omega),
-          orElseSup, List.findSome?_cons, Err.isCancel]
-    | none =>
-      cases hd : s.st.supDone.any (·.1 == k) <;> cases re <;>
-        simp [hf, hd, bind_apply, pure_apply, raise_apply, tryExcept_apply, ih (k + 1) _ s (by omega),
-          orElseSup, List.findSome?_cons, Err.isCancel]
 
 @[simp] theorem isCancel_cancelled (t : Nat) : (Err.cancelled t).isCancel = true := rfl
 @[simp] theorem isCancel_exc (i : Nat) : (Err.exc i).isCancel = false := rfl
@@ -480,21 +418,39 @@ def outcomeOf (o : Option Err) : Out PyExc Unit Unit :=
   | none => .next ()
 
 
-/-- the whole collection loop of run(): the simulation task first, then the supporting tasks in order -/
-theorem collect_all (env : Nat → St → St) (n : Nat) (s : TS) :
-    TrE.run_for2 (runPrims env) (coros n) (((-1 : Int), Tk.sim) :: (List.range' 0 n).map fun (i : Nat) => ((i : Int), Tk.sup i)) none s =
-      (s.await env .simtask, .next ((runRaises (s.await env .simtask).st n).map PyExc.err)) := by
-  unfold TrE.run_for2
-  have hc := fun re => collect_sups env n n 0 re (s.await env .simtask) (by omega)
-  cases he : (s.await env .simtask).st.error with
-  | none =>
-    simp [bind_apply, pure_apply, tryExcept_apply, awaitSim, runForeverRaises, he, hc, orElseSup, runRaises, shutdownRaises,
-      firstSupError_eq, List.range_eq_range']
-    congr 1; funext i; simp only [Function.comp_apply]; cases supFailure (TS.await env Aw.simtask s).st.supDone i <;> rfl
-  | some e =>
-    cases hk : e.isCancel <;>
-    simp [bind_apply, pure_apply, tryExcept_apply, awaitSim, runForeverRaises, he, hk, hc, orElseSup, runRaises, shutdownRaises,
-      firstSupError_eq, List.range_eq_range']
-    congr 1; funext i; simp only [Function.comp_apply]; cases supFailure (TS.await env Aw.simtask s).st.supDone i <;> rfl
+@[simp] theorem finish_phase (s : St) (hp : s.phase = .cleanup) : (step s .finish).1.phase = .done := by
+  simp [step, hp]
+
+/-- under the tie's hypotheses on the environments the model's account of run_forever ends in phase `done` -/
+theorem rfModel_done (sc : RfScript) (s0 : St) (hp : s0.phase = .notStarted) (he : s0.error = none)
+    (hs : ∀ s, (sc.envSim s).phase = s.phase)
+    (ht : sc.initErr = none → (thrownAt (sc.envSim (step s0 (.start none)).1)).2.isSome = true)
+    (hy : ∀ s, (sc.envYield s).phase = s.phase) (hz : ∀ s, (sc.envStop s).phase = s.phase) :
+    (rfModel sc s0).phase = .done := by
+  unfold rfModel
+  -- the state at the `sleep(0)`
+  have h2 : (if ((step s0 (.start sc.initErr)).1.phase == Phase.tryBlock) = true
+      then (wakeStep (sc.envSim (step s0 (.start sc.initErr)).1) .sim).1 else (step s0 (.start sc.initErr)).1).phase = .sleep0 := by
+    cases hie : sc.initErr with
+    | some id => rw [start_init_error s0 id hp he]; simp
+    | none =>
+      have ht' := ht hie
+      rw [start_ok s0 hp he] at ht' ⊢
+      have hph : (sc.envSim { s0 with phase := .tryBlock, runWaiting := s0.runMode }).phase = .tryBlock := by rw [hs]
+      simp only [show (({ s0 with phase := .tryBlock, runWaiting := s0.runMode } : St).phase == Phase.tryBlock) = true from rfl,
+        if_true, wakeStep_sim_try_eq _ hph]
+      cases hT : (thrownAt (sc.envSim { s0 with phase := .tryBlock, runWaiting := s0.runMode })).2 with
+      | none => rw [hT] at ht'; simp at ht'
+      | some e => simp
+  simp only []
+  generalize (if ((step s0 (.start sc.initErr)).1.phase == Phase.tryBlock) = true
+      then (wakeStep (sc.envSim (step s0 (.start sc.initErr)).1) .sim).1 else (step s0 (.start sc.initErr)).1) = S2 at h2 ⊢
+  have h3 := (wake_sleep0 (sc.envYield S2) (by rw [hy]; exact h2)).2
+  generalize (wakeStep (sc.envYield S2) .sim).1 = W at h3 ⊢
+  cases hsl : (sc.envYield S2).slowCleanup
+  · simp [hsl] at h3; simp [h3]
+  · simp [hsl] at h3
+    have : (sc.envStop W).phase = .cleanup := by rw [hz]; exact h3
+    simp [h3, finish_phase _ this]
 
 end Edzed.ErrorRegTie
